@@ -11,9 +11,27 @@ set_option linter.unusedVariables false
 
 variable {α : Type} [Field α] [LinearOrder α] [IsStrictOrderedRing α]
 
-/-- `griddify` on a valid allocation. -/
+/-- `griddify` (repaired: fixpoint of the two sweeps) on a valid allocation: it returns, the result is valid, refines the
+    input, keeps the caches, and its cell list is a fixpoint of a round of the two sweeps. -/
 theorem griddify_spec (env : Env α) (st : Eps α) (a : Allocation α) (hv : ValidAlloc st a) :
     ∃ a', griddify env st a = .ok (a', st) ∧ ValidAlloc st a' ∧ Refines a.cells a'.cells ∧ a'.stats = a.stats ∧
+      ∃ xs ys, gatherBoundaries st (a.cells.map (·.rect)) = .ok (xs, ys) ∧
+        griddifyRounds env.rho xs ys (gridFuel xs ys a.cells) a.cells = .ok a'.cells ∧
+        griddifyCells env.rho xs ys a'.cells = .ok a'.cells := by
+  have hdef : st.defined = true := by simp [Eps.defined, hv.epsDef]
+  have hgb : ∃ xs ys, gatherBoundaries st (a.cells.map (·.rect)) = .ok (xs, ys) := by
+    simp only [gatherBoundaries, hdef, Bool.not_true, Bool.false_eq_true, ↓reduceIte]
+    exact ⟨_, _, rfl⟩
+  obtain ⟨xs, ys, hb⟩ := hgb
+  obtain ⟨q, e1, r1, f1⟩ := griddifyRounds_ok env.rho xs ys (gridFuel xs ys a.cells) a.cells hv.cells.good
+    (gridFuel_enough xs ys a.cells)
+  obtain ⟨a', m1, m2, m3, m4⟩ := mk_of_refines env st a hv q r1
+  refine ⟨a', ?_, m4, m2 ▸ r1, m3, xs, ys, hb, m2 ▸ e1, m2 ▸ f1⟩
+  simp only [griddify, hb, e1, m1]
+
+/-- one round of the two sweeps (`griddify` before `fixes/C12_griddify_x_before_y.diff`) on a valid allocation. -/
+theorem griddifyOnce_spec (env : Env α) (st : Eps α) (a : Allocation α) (hv : ValidAlloc st a) :
+    ∃ a', griddifyOnce env st a = .ok (a', st) ∧ ValidAlloc st a' ∧ Refines a.cells a'.cells ∧ a'.stats = a.stats ∧
       ∃ xs ys, gatherBoundaries st (a.cells.map (·.rect)) = .ok (xs, ys) ∧
         griddifyCells env.rho xs ys a.cells = .ok a'.cells := by
   have hdef : st.defined = true := by simp [Eps.defined, hv.epsDef]
@@ -24,7 +42,7 @@ theorem griddify_spec (env : Env α) (st : Eps α) (a : Allocation α) (hv : Val
   obtain ⟨q, e1, r1⟩ := griddifyCells_refines env.rho xs ys a.cells hv.cells.good
   obtain ⟨a', m1, m2, m3, m4⟩ := mk_of_refines env st a hv q r1
   refine ⟨a', ?_, m4, m2 ▸ r1, m3, xs, ys, hb, m2 ▸ e1⟩
-  simp only [griddify, hb, e1, m1]
+  simp only [griddifyOnce, hb, e1, m1]
 
 /-! ### the caches are the sums; the constructor produces valid allocations -/
 
@@ -979,14 +997,54 @@ theorem mem_uniqEps_sortAsc_sub (ε : α) (l : List α) (v : α) (h : v ∈ uniq
   · cases h
   · exact (mem_sortAsc v l).mp h
 
-/-- the deque after both loops, with everything known about it (used by the C12 theorems). -/
+theorem griddifyRounds_sides (ρ : α) (bx bys xs ys : List α) (hxs : ∀ x ∈ xs, x ∈ bx) (hys : ∀ y ∈ ys, y ∈ bys) :
+    ∀ (fuel : Nat) (cells q : List (Cell α)), (∀ c ∈ cells, SidesIn bx bys c) →
+      griddifyRounds ρ xs ys fuel cells = .ok q → ∀ d ∈ q, SidesIn bx bys d := by
+  intro fuel
+  induction fuel with
+  | zero => intro cells q _ h; simp [griddifyRounds] at h
+  | succ f ih =>
+    intro cells q h0 h
+    unfold griddifyRounds at h
+    cases hc : griddifyCells ρ xs ys cells with
+    | error e => rw [hc] at h; cases h
+    | ok q1 =>
+      rw [hc] at h; simp only at h
+      have s1 := griddifyCells_sides ρ bx bys xs ys cells q1 hxs hys h0 hc
+      by_cases hlen : q1.length = cells.length
+      · rw [if_pos hlen] at h; injection h with h; subst h; exact s1
+      · rw [if_neg hlen] at h; exact ih q1 q s1 h
+
+/-- the result of `griddify`, with everything known about it (used by the C12 theorems): the cut lines, full alignment of
+    every refinable cell at every interior cut line in both directions, and every side of a result cell is a side line of
+    an original cell. -/
 theorem griddify_result (env : Env α) (st : Eps α) (a : Allocation α) (hv : ValidAlloc st a) :
     ∃ a' xs ys, griddify env st a = .ok (a', st) ∧
       xs = uniqEps st.dist (sortAsc (sidesX (a.cells.map (·.rect)))) ∧
       ys = uniqEps st.dist (sortAsc (sidesY (a.cells.map (·.rect)))) ∧
+      (∀ d ∈ a'.cells, d.rect.fixed = false →
+        (∀ x, InteriorCut xs x → d.rect.xCuttable x env.rho = false) ∧
+        (∀ y, InteriorCut ys y → d.rect.yCuttable y env.rho = false)) ∧
+      (∀ d ∈ a'.cells, SidesIn (sidesX (a.cells.map (·.rect))) (sidesY (a.cells.map (·.rect))) d) := by
+  obtain ⟨a', h1, _, _, _, xs, ys, hb, hgr, hfix⟩ := griddify_spec env st a hv
+  obtain ⟨ex, ey⟩ := gatherBoundaries_eq st _ xs ys hb
+  refine ⟨a', xs, ys, h1, ex, ey, ((griddifyCells_noop env.rho xs ys a'.cells a'.cells hfix).2 (le_refl _)).2, ?_⟩
+  apply griddifyRounds_sides env.rho _ _ xs ys _ _ _ a.cells a'.cells _ hgr
+  · intro x hx; rw [ex] at hx; exact mem_uniqEps_sortAsc_sub _ _ x hx
+  · intro y hy; rw [ey] at hy; exact mem_uniqEps_sortAsc_sub _ _ y hy
+  · intro c hc
+    have hm : c.rect ∈ a.cells.map (·.rect) := List.mem_map.mpr ⟨c, hc, rfl⟩
+    exact ⟨hv.cells.good c hc, (mem_sidesX _ _ hm).1, (mem_sidesX _ _ hm).2, (mem_sidesY _ _ hm).1, (mem_sidesY _ _ hm).2⟩
+
+/-- the same for one round (`griddifyOnce`, the code before `fixes/C12_griddify_x_before_y.diff`): the per-cell invariant
+    `YInv` (x statement relative to the PARENT's height, y statement in full). -/
+theorem griddifyOnce_result (env : Env α) (st : Eps α) (a : Allocation α) (hv : ValidAlloc st a) :
+    ∃ a' xs ys, griddifyOnce env st a = .ok (a', st) ∧
+      xs = uniqEps st.dist (sortAsc (sidesX (a.cells.map (·.rect)))) ∧
+      ys = uniqEps st.dist (sortAsc (sidesY (a.cells.map (·.rect)))) ∧
       (∀ d ∈ a'.cells, YInv a.cells env.rho (InteriorCut xs) (InteriorCut ys) d) ∧
       (∀ d ∈ a'.cells, SidesIn (sidesX (a.cells.map (·.rect))) (sidesY (a.cells.map (·.rect))) d) := by
-  obtain ⟨a', h1, _, _, _, xs, ys, hb, hgc⟩ := griddify_spec env st a hv
+  obtain ⟨a', h1, _, _, _, xs, ys, hb, hgc⟩ := griddifyOnce_spec env st a hv
   obtain ⟨ex, ey⟩ := gatherBoundaries_eq st _ xs ys hb
   refine ⟨a', xs, ys, h1, ex, ey, griddifyCells_aligned env.rho xs ys a.cells a'.cells hv.cells.good hgc, ?_⟩
   apply griddifyCells_sides env.rho _ _ xs ys a.cells a'.cells _ _ _ hgc
@@ -995,6 +1053,278 @@ theorem griddify_result (env : Env α) (st : Eps α) (a : Allocation α) (hv : V
   · intro c hc
     have hm : c.rect ∈ a.cells.map (·.rect) := List.mem_map.mpr ⟨c, hc, rfl⟩
     exact ⟨hv.cells.good c hc, (mem_sidesX _ _ hm).1, (mem_sidesX _ _ hm).2, (mem_sidesY _ _ hm).1, (mem_sidesY _ _ hm).2⟩
+
+/-! ### `griddify` leaves nothing to cut at any side line, and is idempotent -/
+
+/-- after `griddify`, no refinable cell is x- (y-) cuttable at ANY side coordinate of the original cells (layouts whose
+    side coordinates are `Separated`, so that every side line is a cut line). -/
+theorem griddify_no_cut_at_sides (env : Env α) (st : Eps α) (a : Allocation α) (hv : ValidAlloc st a)
+    (hsx : Separated st.dist (sidesX (a.cells.map (·.rect)))) (hsy : Separated st.dist (sidesY (a.cells.map (·.rect)))) :
+    ∃ a', griddify env st a = .ok (a', st) ∧
+      (∀ d ∈ a'.cells, SidesIn (sidesX (a.cells.map (·.rect))) (sidesY (a.cells.map (·.rect))) d) ∧
+      ∀ d ∈ a'.cells, d.rect.fixed = false →
+        (∀ z ∈ sidesX (a.cells.map (·.rect)), d.rect.xCuttable z env.rho = false) ∧
+        (∀ z ∈ sidesY (a.cells.map (·.rect)), d.rect.yCuttable z env.rho = false) := by
+  obtain ⟨a', xs, ys, h1, ex, ey, hal, hsides⟩ := griddify_result env st a hv
+  obtain ⟨hincx, hmemx⟩ := uniqEps_sortAsc_spec st.dist hv.epsDef _ hsx
+  obtain ⟨hincy, hmemy⟩ := uniqEps_sortAsc_spec st.dist hv.epsDef _ hsy
+  rw [← ex] at hincx hmemx
+  rw [← ey] at hincy hmemy
+  refine ⟨a', h1, hsides, ?_⟩
+  intro d hd hf
+  obtain ⟨_, d1, d2, d3, d4⟩ := hsides d hd
+  obtain ⟨hx, hy⟩ := hal d hd hf
+  constructor
+  · intro z hz
+    by_contra hc
+    have hc' : d.rect.xCuttable z env.rho = true := by simpa using hc
+    have hin := xCuttable_imp_strict_inside d.rect z env.rho hc'
+    have hcut := interiorCut_of_between xs hincx d.rect.xmin z d.rect.xmax ((hmemx _).mpr d1) ((hmemx _).mpr hz)
+      ((hmemx _).mpr d2) hin.1 hin.2
+    rw [hx z hcut] at hc'; cases hc'
+  · intro z hz
+    by_contra hc
+    have hc' : d.rect.yCuttable z env.rho = true := by simpa using hc
+    have hin := yCuttable_imp_strict_inside d.rect z env.rho hc'
+    have hcut := interiorCut_of_between ys hincy d.rect.ymin z d.rect.ymax ((hmemy _).mpr d3) ((hmemy _).mpr hz)
+      ((hmemy _).mpr d4) hin.1 hin.2
+    rw [hy z hcut] at hc'; cases hc'
+
+theorem pass_id (cut : Cell α → Except AErr (List (Cell α))) (q : List (Cell α)) (h : ∀ c ∈ q, cut c = .ok [c]) :
+    pass cut q = .ok q := by
+  unfold pass
+  rw [mapE_eq_map cut (fun c => [c]) q h]
+  simp only [Except.ok.injEq]
+  induction q with
+  | nil => rfl
+  | cons c q ih => simp only [List.map_cons, List.flatten_cons, List.singleton_append, List.cons.injEq, true_and]; exact ih (fun d hd => h d (by simp [hd]))
+
+theorem cutsLoop_id (cut : α → Cell α → Except AErr (List (Cell α))) (cuts : List α) (q : List (Cell α)) :
+    ∀ (idxs : List Nat), (∀ i ∈ idxs, i < cuts.length) →
+      (∀ i ∈ idxs, ∀ x, cuts[i]? = some x → ∀ c ∈ q, cut x c = .ok [c]) → cutsLoop cut cuts idxs q = .ok q := by
+  intro idxs
+  induction idxs with
+  | nil => intro _ _; rfl
+  | cons i is ih =>
+    intro hlt h
+    have hi := hlt i (by simp)
+    have hx : cuts[i]? = some cuts[i] := List.getElem?_eq_getElem hi
+    unfold cutsLoop
+    rw [hx]
+    simp only
+    rw [pass_id (cut cuts[i]) q (h i (by simp) _ hx)]
+    exact ih (fun j hj => hlt j (by simp [hj])) (fun j hj => h j (by simp [hj]))
+
+theorem cutX_refused (ρ x : α) (c : Cell α) (h : c.rect.fixed = true ∨ c.rect.xCuttable x ρ = false) :
+    cutX ρ x c = .ok [c] := by
+  unfold cutX
+  have : (!c.rect.fixed && c.rect.xCuttable x ρ) = false := by rcases h with h | h <;> simp [h]
+  simp [this]
+
+theorem cutY_refused (ρ y : α) (c : Cell α) (h : c.rect.fixed = true ∨ c.rect.yCuttable y ρ = false) :
+    cutY ρ y c = .ok [c] := by
+  unfold cutY
+  have : (!c.rect.fixed && c.rect.yCuttable y ρ) = false := by rcases h with h | h <;> simp [h]
+  simp [this]
+
+/-- a round in which every cell refuses every interior cut line returns its input. -/
+theorem griddifyCells_id (ρ : α) (xs ys : List α) (q : List (Cell α))
+    (hx : ∀ c ∈ q, ∀ x, InteriorCut xs x → c.rect.fixed = true ∨ c.rect.xCuttable x ρ = false)
+    (hy : ∀ c ∈ q, ∀ y, InteriorCut ys y → c.rect.fixed = true ∨ c.rect.yCuttable y ρ = false) :
+    griddifyCells ρ xs ys q = .ok q := by
+  unfold griddifyCells
+  rw [cutsLoop_id (cutX ρ) xs q _ (fun i hi => range'_lt _ i hi)
+    (fun i hi x hxi c hc => cutX_refused ρ x c (hx c hc x ⟨i, hi, hxi⟩))]
+  simp only
+  exact cutsLoop_id (cutY ρ) ys q _ (fun i hi => range'_lt _ i hi)
+    (fun i hi y hyi c hc => cutY_refused ρ y c (hy c hc y ⟨i, hi, hyi⟩))
+
+/-- **`griddify` is idempotent**: gridding the result again (with the cut lines gathered anew from the result) returns
+    the very same allocation. -/
+theorem griddify_idem (env : Env α) (st : Eps α) (a : Allocation α) (hv : ValidAlloc st a)
+    (hsx : Separated st.dist (sidesX (a.cells.map (·.rect)))) (hsy : Separated st.dist (sidesY (a.cells.map (·.rect)))) :
+    ∃ a', griddify env st a = .ok (a', st) ∧ griddify env st a' = .ok (a', st) := by
+  obtain ⟨a', h1, hsides, hno⟩ := griddify_no_cut_at_sides env st a hv hsx hsy
+  obtain ⟨a1, g1, hv', _, _, xs, ys, hb, hgr, _⟩ := griddify_spec env st a hv
+  rw [h1] at g1; injection g1 with g1; injection g1 with g1; subst g1
+  have hmk : mkAllocation env st (a'.cells.map Cell.toRaw) = .ok (a', st) := by
+    have := h1
+    simp only [griddify, hb, hgr] at this
+    exact this
+  refine ⟨a', h1, ?_⟩
+  have hdef : st.defined = true := by simp [Eps.defined, hv.epsDef]
+  have hgb : ∃ xs' ys', gatherBoundaries st (a'.cells.map (·.rect)) = .ok (xs', ys') := by
+    simp only [gatherBoundaries, hdef, Bool.not_true, Bool.false_eq_true, ↓reduceIte]
+    exact ⟨_, _, rfl⟩
+  obtain ⟨xs', ys', hb'⟩ := hgb
+  obtain ⟨ex', ey'⟩ := gatherBoundaries_eq st _ xs' ys' hb'
+  have hxs : ∀ x, InteriorCut xs' x → x ∈ sidesX (a.cells.map (·.rect)) := by
+    intro x ⟨i, _, hi⟩
+    have hm : x ∈ xs' := List.mem_of_getElem? hi
+    rw [ex'] at hm
+    have := mem_uniqEps_sortAsc_sub _ _ x hm
+    unfold sidesX at this
+    obtain ⟨r, hr, hxr⟩ := List.mem_flatMap.mp this
+    obtain ⟨d, hd, rfl⟩ := List.mem_map.mp hr
+    obtain ⟨_, b1, b2, _, _⟩ := hsides d hd
+    simp only [List.mem_cons, List.not_mem_nil, or_false] at hxr
+    rcases hxr with rfl | rfl
+    · exact b1
+    · exact b2
+  have hys : ∀ y, InteriorCut ys' y → y ∈ sidesY (a.cells.map (·.rect)) := by
+    intro y ⟨i, _, hi⟩
+    have hm : y ∈ ys' := List.mem_of_getElem? hi
+    rw [ey'] at hm
+    have := mem_uniqEps_sortAsc_sub _ _ y hm
+    unfold sidesY at this
+    obtain ⟨r, hr, hyr⟩ := List.mem_flatMap.mp this
+    obtain ⟨d, hd, rfl⟩ := List.mem_map.mp hr
+    obtain ⟨_, _, _, b3, b4⟩ := hsides d hd
+    simp only [List.mem_cons, List.not_mem_nil, or_false] at hyr
+    rcases hyr with rfl | rfl
+    · exact b3
+    · exact b4
+  have hid : griddifyCells env.rho xs' ys' a'.cells = .ok a'.cells := by
+    apply griddifyCells_id
+    · intro c hc x hx
+      by_cases hf : c.rect.fixed = true
+      · exact Or.inl hf
+      · exact Or.inr ((hno c hc (by simpa using hf)).1 x (hxs x hx))
+    · intro c hc y hy
+      by_cases hf : c.rect.fixed = true
+      · exact Or.inl hf
+      · exact Or.inr ((hno c hc (by simpa using hf)).2 y (hys y hy))
+  simp only [griddify, hb', gridFuel, griddifyRounds, hid, ↓reduceIte, hmk]
+
+/-! ### flagging cells fixed in place (`a.allocations[i].rect.fixed = True`) keeps the allocation valid -/
+
+/-- same geometry and ratios (flags, region, depth may differ). -/
+def SameGeo (c c' : Cell α) : Prop :=
+  c'.rect.cx = c.rect.cx ∧ c'.rect.cy = c.rect.cy ∧ c'.rect.w = c.rect.w ∧ c'.rect.h = c.rect.h ∧ c'.alloc = c.alloc
+
+theorem SameGeo.sides {c c' : Cell α} (h : SameGeo c c') :
+    c'.rect.xmin = c.rect.xmin ∧ c'.rect.xmax = c.rect.xmax ∧ c'.rect.ymin = c.rect.ymin ∧ c'.rect.ymax = c.rect.ymax ∧
+    c'.rect.area = c.rect.area := by
+  obtain ⟨a, b, c1, d, _⟩ := h
+  simp only [xmin, xmax, ymin, ymax, Rect.area, a, b, c1, d, and_self]
+
+theorem SameGeo.overlap {c c' d d' : Cell α} (h1 : SameGeo c c') (h2 : SameGeo d d') :
+    c'.rect.areaOverlap d'.rect = c.rect.areaOverlap d.rect := by
+  obtain ⟨a1, a2, a3, a4, _⟩ := h1.sides
+  obtain ⟨b1, b2, b3, b4, _⟩ := h2.sides
+  simp only [Rect.areaOverlap, a1, a2, a3, a4, b1, b2, b3, b4]
+
+theorem modules_eq_foldl (cs : List (Cell α)) : modules cs = (cs.map (·.alloc)).foldl addKeys [] := by
+  unfold modules
+  rw [List.foldl_map]
+
+theorem forall2_sameGeo_allocs {cs cs' : List (Cell α)} (h : List.Forall₂ SameGeo cs cs') :
+    cs'.map (·.alloc) = cs.map (·.alloc) := by
+  induction h with
+  | nil => rfl
+  | cons h1 _ ih => simp only [List.map_cons, ih, h1.2.2.2.2]
+
+theorem forall2_sameGeo_sum {cs cs' : List (Cell α)} (h : List.Forall₂ SameGeo cs cs') (f : Cell α → α)
+    (hf : ∀ c c', SameGeo c c' → f c' = f c) : (cs'.map f).sum = (cs.map f).sum := by
+  induction h with
+  | nil => rfl
+  | cons h1 _ ih => simp only [List.map_cons, List.sum_cons, ih, hf _ _ h1]
+
+theorem forall2_sameGeo_foldl {cs cs' : List (Cell α)} (h : List.Forall₂ SameGeo cs cs') (g : α → α → α) (f : Cell α → α)
+    (hf : ∀ c c', SameGeo c c' → f c' = f c) (init : α) :
+    cs'.foldl (fun m d => g m (f d)) init = cs.foldl (fun m d => g m (f d)) init := by
+  induction h generalizing init with
+  | nil => rfl
+  | cons h1 _ ih => simp only [List.foldl_cons, hf _ _ h1, ih]
+
+theorem boundingBox_sameGeo {cs cs' : List (Cell α)} (h : List.Forall₂ SameGeo cs cs') :
+    boundingBox cs' = boundingBox cs := by
+  cases h with
+  | nil => rfl
+  | cons h1 h2 =>
+    obtain ⟨a1, a2, a3, a4, _⟩ := h1.sides
+    unfold boundingBox
+    simp only [a1, a2, a3, a4]
+    rw [forall2_sameGeo_foldl h2 pyMin (fun d => d.rect.xmin) (fun _ _ hh => hh.sides.1),
+      forall2_sameGeo_foldl h2 pyMax (fun d => d.rect.xmax) (fun _ _ hh => hh.sides.2.1),
+      forall2_sameGeo_foldl h2 pyMin (fun d => d.rect.ymin) (fun _ _ hh => hh.sides.2.2.1),
+      forall2_sameGeo_foldl h2 pyMax (fun d => d.rect.ymax) (fun _ _ hh => hh.sides.2.2.2.1)]
+
+theorem occ_sameGeo {c c' : Cell α} (h : SameGeo c c') (m : String) : occ m c' = occ m c := by
+  unfold occ; rw [h.2.2.2.2]
+
+theorem areasCenters_sameGeo {cs cs' : List (Cell α)} (h : List.Forall₂ SameGeo cs cs') :
+    areasCenters cs' = areasCenters cs := by
+  have hm : modules cs' = modules cs := by rw [modules_eq_foldl, modules_eq_foldl, forall2_sameGeo_allocs h]
+  unfold areasCenters
+  rw [hm]
+  apply mapE_congr
+  intro m _
+  unfold statOf
+  rw [modStats_eq, modStats_eq]
+  have e1 : areaSum m cs' = areaSum m cs :=
+    forall2_sameGeo_sum h _ (fun c c' hh => by rw [occ_sameGeo hh, hh.sides.2.2.2.2])
+  have e2 : momXSum m cs' = momXSum m cs :=
+    forall2_sameGeo_sum h _ (fun c c' hh => by rw [occ_sameGeo hh, hh.sides.2.2.2.2, hh.1])
+  have e3 : momYSum m cs' = momYSum m cs :=
+    forall2_sameGeo_sum h _ (fun c c' hh => by rw [occ_sameGeo hh, hh.sides.2.2.2.2, hh.2.1])
+  rw [e1, e2, e3]
+
+theorem markFixed_sameGeo (a : Allocation α) (idxs : List Nat) :
+    List.Forall₂ SameGeo a.cells (a.markFixed idxs).cells := by
+  unfold Allocation.markFixed
+  simp only
+  generalize a.cells = cs
+  suffices h : ∀ k, List.Forall₂ SameGeo cs ((cs.zipIdx k).map fun (x : Cell α × Nat) =>
+      if idxs.contains x.2 then { x.1 with rect := { x.1.rect with fixed := true } } else x.1) from h 0
+  induction cs with
+  | nil => intro k; exact List.Forall₂.nil
+  | cons c cs ih =>
+    intro k
+    rw [List.zipIdx_cons, List.map_cons]
+    refine List.Forall₂.cons ?_ (ih (k + 1))
+    by_cases hc : idxs.contains k = true
+    · simp only [hc, ↓reduceIte]; exact ⟨rfl, rfl, rfl, rfl, rfl⟩
+    · simp only [hc, Bool.false_eq_true, ↓reduceIte]; exact ⟨rfl, rfl, rfl, rfl, rfl⟩
+
+/-- **flagging cells fixed in place keeps the allocation valid** (same state, same caches, same bounding box): the
+    refinement theorems apply at every stage of a history that interleaves operations with `rect.fixed = True`. -/
+theorem markFixed_valid (st : Eps α) (a : Allocation α) (idxs : List Nat) (hv : ValidAlloc st a) :
+    ValidAlloc st (a.markFixed idxs) := by
+  have hg := markFixed_sameGeo a idxs
+  have hstats : (a.markFixed idxs).stats = a.stats := rfl
+  have hbb : (a.markFixed idxs).bbox = a.bbox := rfl
+  have hm : modules (a.markFixed idxs).cells = modules a.cells := by
+    rw [modules_eq_foldl, modules_eq_foldl, forall2_sameGeo_allocs hg]
+  refine ⟨hv.epsDef, hv.epsArea, ⟨?_, ?_, ?_, ?_, ?_⟩, ?_, ?_⟩
+  · intro hnil
+    rw [hnil] at hg
+    exact hv.cells.nonempty (List.forall₂_nil_right_iff.mp hg)
+  · intro c' hc'
+    obtain ⟨c, hc, hh⟩ := forall2_mem_right hg c' hc'
+    obtain ⟨s1, _, s3, _, _⟩ := hh.sides
+    obtain ⟨g1, g2, g3, g4⟩ := hv.cells.good c hc
+    exact ⟨by rw [hh.2.2.1]; exact g1, by rw [hh.2.2.2.1]; exact g2, by rw [s1]; exact g3, by rw [s3]; exact g4⟩
+  · intro c' hc'
+    obtain ⟨c, hc, hh⟩ := forall2_mem_right hg c' hc'
+    rw [hh.2.2.2.2]; exact hv.cells.allocs c hc
+  · exact pairwise_of_forall2 hv.cells.noOverlap hg (fun d e p q hde hdp heq => by rw [SameGeo.overlap hdp heq]; exact hde)
+  · intro m hmm
+    rw [hm] at hmm
+    have e1 : areaSum m (a.markFixed idxs).cells = areaSum m a.cells :=
+      forall2_sameGeo_sum hg _ (fun c c' hh => by rw [occ_sameGeo hh, hh.sides.2.2.2.2])
+    rw [e1]; exact hv.cells.areaNZ m hmm
+  · rw [areasCenters_sameGeo hg, hstats]; exact hv.stats
+  · rw [boundingBox_sameGeo hg, hbb]; exact hv.bbox
+
+/-- which cells are flagged afterwards: the listed indices and the cells that were flagged before; everything else of a
+    cell (geometry, region, hard flag, ratios, depth) is untouched. -/
+theorem markFixed_cells (a : Allocation α) (idxs : List Nat) (i : Nat) :
+    (a.markFixed idxs).cells[i]? = a.cells[i]?.map fun c =>
+      if idxs.contains i then { c with rect := { c.rect with fixed := true } } else c := by
+  unfold Allocation.markFixed
+  simp only [List.getElem?_map, List.getElem?_zipIdx, Option.map_map, Nat.zero_add]
+  rfl
 
 /-! ### Python's compensated `sum()` is the plain sum in exact arithmetic -/
 
